@@ -65,23 +65,26 @@ class Gen:
         self.stats["kinds"][k] = self.stats["kinds"].get(k, 0) + 1
 
     # ---------------------------------------------------------------- structure
-    def block(self, scope, depth, maxn, in_construct=False):
+    def block(self, scope, depth, maxn, in_construct=False, nodefs=False):
         out = []
         n = self.rng.randint(1, maxn)
         for _ in range(n):
             if self.budget <= 0:
                 break
-            out.append(self.stmt(scope, depth, in_construct))
+            out.append(self.stmt(scope, depth, in_construct, nodefs))
         if not out:
             out.append(("instr0", "nop"))
         return out
 
-    def stmt(self, scope, depth, in_construct=False):
+    def stmt(self, scope, depth, in_construct=False, nodefs=False):
         self.budget -= 1
         self.stats["max_depth"] = max(self.stats["max_depth"], depth)
         r = self.rng.random()
         deep = depth >= 4
         f = self.f
+        if nodefs and (0.40 <= r < 0.52 or 0.58 <= r < 0.66):
+            # an `.if` branch is not a scope: what it defines would only exist when the branch is taken
+            r = 0.0
         if r < 0.30:
             return self.instr(scope)
         if r < 0.40:
@@ -134,8 +137,8 @@ class Gen:
             if in_construct:
                 self.stats["nested_constructs"] += 1
             cond = self.cond(scope)
-            a = self.block(scope, depth + 1, 3, True)
-            b = self.block(scope, depth + 1, 3, True) if self.rng.random() < 0.5 else None
+            a = self.block(scope, depth + 1, 3, True, True)
+            b = self.block(scope, depth + 1, 3, True, True) if self.rng.random() < 0.5 else None
             return ("if", cond, a, b)
         if r < 0.84 and f["loops"] and not deep:
             self.kind("loop")
@@ -165,7 +168,7 @@ class Gen:
         if r < 0.94 and f["segments"] and self.segments and depth <= 1 and not scope.in_macro and scope.kind in ("root", "braces", "label"):
             self.kind("segment_block")
             seg = self.rng.choice(self.segments)
-            return ("segblock", seg, self.block(scope, depth + 1, 3, in_construct))
+            return ("segblock", seg, self.block(scope, depth + 1, 3, in_construct, nodefs))
         if r < 0.97 and f["text"]:
             self.kind("text")
             return ("text", self.rng.choice(["hi", "A", "mos 6502", "x{c}y"]))
